@@ -1,6 +1,7 @@
 import Driver.Common
 import Driver.C07
 import Log4rsModel.Roller.Crash
+import Log4rsModel.Roller.FinalSplit
 /-
 C08 driver.
 case   : mode(1 append|0 truncate)  pre(0|1)  pattern  base  count  file  init(path:bytes,…)
@@ -8,6 +9,13 @@ case   : mode(1 append|0 truncate)  pre(0|1)  pattern  base  count  file  init(p
 observation (one field): per op `res|boundaries|final`, ops joined by `/`; the first element is the
 start-up of the appender (`rs:…`); boundaries = snapshots at the rotation's hook points joined by
 `;` (`-` if none). After a crash op (`crash|…|image`) an `rs:` element for the fresh appender follows.
+ops `p` … `v`: in between, the appender runs under a uid that may not modify the directory of the
+log file (it owns the log file and the directory `arch/` of the archives): a REAL failure inside the
+final step — `rename` refused, the copy fallback done, the source not removable.
+op `x`: from here on `arch/` is on another filesystem (the final move is the copy + remove fallback).
+step number 4294967294 (= the argument `u32::MAX - 1` of the hook point between the compressing copy
+and the removal of the source) in `faults` / `crash`: a fault / a crash image INSIDE the compressing
+final step (only patterns that compress have that point).
 -/
 namespace Driver.C08
 open Log4rs.Proto Log4rs.Roller Log4rs Driver Driver.C07
@@ -29,6 +37,9 @@ def decOp (s : String) : Option Op :=
   | ["o"] => some .obstacle
   | ["u"] => some .unobstacle
   | ["q"] => some .quiesce
+  | ["p"] => some .protect
+  | ["v"] => some .unprotect
+  | ["x"] => some .crossMount
   | ["a", b, t] => match decBytes b, decBool t with
     | some b, some t => some (.append b t)
     | _, _ => none
@@ -48,6 +59,9 @@ def decCase : List String → Option Case
     let faults ← mapM? (decPair decNat decNat) (decList ',' faults)
     let crash ← decOpt (decPair decNat decNat) crash
     if !hasHole pattern || count = 0 then none else
+    -- protection needs the archives in a directory of their own, and a crash image cannot be written
+    -- by a process that may not modify anything else
+    if (ops.contains .protect || ops.contains .crossMount) && (crash.isSome || !("arch/".toList.isPrefixOf pattern)) then none else
     pure { cfg := { mode := if mode then .append else .truncate, pre, file,
                     roller := mkRoller id id pattern base count },
            init, ops, faults, crash, size }
@@ -57,6 +71,14 @@ def obstaclePath (r : RollerCfg) : Path :=
   r.nameOf (r.base + r.count - 1) ++ "/obstacle".toList
 
 def nSteps (r : RollerCfg) : Nat := r.count
+
+/-- the hook point inside the compressing final step, named by the hook's argument `u32::MAX - 1` -/
+def midPt : Nat := 4294967294
+
+/-- the model flag of `move_file`'s copy fallback (Roller/FinalSplit.lean) -/
+def finalCfg : FinalCfg := {}
+
+def hasMid (r : RollerCfg) : Bool := r.comp ≠ .none
 
 /-- the fault oracle of the n-th rotation attempt, started on disk `d` -/
 def faultOf (c : Case) (n : Nat) (d : Disk) : Nat → Bool := fun k =>
@@ -78,6 +100,7 @@ def encBoundaries (bs : List Disk) : String :=
 structure MState where
   app : AppState
   attempts : Nat
+  prot : Bool := false
 
 def startObs (st : AppState) : String := "rs:ok|-|" ++ encSnap st.disk
 
@@ -99,6 +122,13 @@ def runModel (c : Case) : MState → List Op → List String
         let d := m.app.disk.set (obstaclePath r) [120]
         ("o:placed|-|" ++ encSnap d) :: runModel c { m with app := { m.app with disk := d } } rest
     | .quiesce => ("q|-|" ++ encSnap m.app.disk) :: runModel c m rest
+    | .protect =>
+      -- the scene includes the log file itself (created empty when it is not there: a process that
+      -- may not modify the directory could not create it)
+      let d := reopen false cfg.file m.app.disk
+      ("p|-|" ++ encSnap d) :: runModel c { m with app := { m.app with disk := d }, prot := true } rest
+    | .unprotect => ("v|-|" ++ encSnap m.app.disk) :: runModel c { m with prot := false } rest
+    | .crossMount => ("x|-|" ++ encSnap m.app.disk) :: runModel c m rest
     | .unobstacle =>
       let d := m.app.disk.erase (obstaclePath r)
       ("u|-|" ++ encSnap d) :: runModel c { m with app := { m.app with disk := d } } rest
@@ -111,9 +141,18 @@ def runModel (c : Case) : MState → List Op → List String
         let start := rotationStart cfg rec m.app
         let fault := faultOf c n start.disk
         let ff := firstFault fault (nSteps r)
+        let allBs := (List.range (nSteps r)).map (fun j => crashAfter r cfg.file j start.disk)
         let crashK : Option Nat := match c.crash with
           | some (cn, k) => if cn = n && (match ff with | some f => k ≤ f | none => k ≤ nSteps r) then some k else none
           | none => none
+        let crashMid : Bool := ff.isNone && hasMid r && c.crash = some (n, midPt)
+        if crashMid then
+          -- the process dies between the compressing copy and the removal of the source
+          let image := midFinal r cfg.file start.disk
+          let st := restartOp cfg image
+          ("crash|" ++ encBoundaries allBs ++ "|" ++ encSnap image) :: startObs st ::
+            runModel c { m with app := st, attempts := n + 1 } rest
+        else
         match crashK with
         | some k =>
           let nb := if k < nSteps r then k + 1 else nSteps r
@@ -121,15 +160,22 @@ def runModel (c : Case) : MState → List Op → List String
           let image := crashAfter r cfg.file k start.disk
           let st := restartOp cfg image
           ("crash|" ++ encBoundaries bs ++ "|" ++ encSnap image) :: startObs st ::
-            runModel c { app := st, attempts := n + 1 } rest
+            runModel c { m with app := st, attempts := n + 1 } rest
         | none =>
+          if ff.isNone && (m.prot || (hasMid r && c.faults.contains (n, midPt))) then
+            -- every shift succeeds; the final step writes slot `base` and then cannot remove the
+            -- log file (protected directory), or is told to fail at that point (hook)
+            let (res, st) := appendOpPartial finalCfg cfg rec m.app
+            (renderRes res ++ "|" ++ encBoundaries allBs ++ "|" ++ encSnap st.disk) ::
+              runModel c { m with app := st, attempts := n + 1 } rest
+          else
           let nb := match ff with
             | some f => f + 1
             | none => nSteps r
           let bs := (List.range nb).map (fun j => crashAfter r cfg.file j start.disk)
           let (res, st) := appendOp cfg fault true rec m.app
           (renderRes res ++ "|" ++ encBoundaries bs ++ "|" ++ encSnap st.disk) ::
-            runModel c { app := st, attempts := n + 1 } rest
+            runModel c { m with app := st, attempts := n + 1 } rest
 
 /-! ### background rotation -/
 
@@ -190,6 +236,7 @@ def runModelBg (c : Case) : BgM → List Op → List String
       let st := restartOp cfg m.app.disk
       ("rs:ok|-|" ++ encSnapBg cfg.file st.disk m.stranded) :: runModelBg c { m with app := st } rest
     | .quiesce => ("q|-|" ++ encSnapBg cfg.file m.app.disk m.stranded) :: runModelBg c m rest
+    | .protect | .unprotect | .crossMount => runModelBg c m rest
     | .obstacle =>
       let top := r.nameOf (r.base + r.count - 1)
       if m.app.disk.has top || m.app.disk.has (obstaclePath r) then
@@ -264,7 +311,14 @@ def tagsOf (c : Case) (model : List String) : List String :=
   (if c.ops.contains .obstacle then ["obstacle"] else []) ++
   (if c.ops.contains .restart then ["restart"] else []) ++
   (if model.any (fun s => s.startsWith "err|") then ["err"] else []) ++
-  (if c.cfg.roller.comp ≠ .none then ["gz"] else []) ++
+  (if c.cfg.roller.comp = .gzip then ["gz"] else []) ++
+  (if c.cfg.roller.comp = .zstd then ["zst"] else []) ++
+  (if c.ops.contains .protect then ["protected"] else []) ++
+  (if c.ops.contains .crossMount then ["cross-mount"] else []) ++
+  (if c.faults.any (fun f => f.2 = midPt) && hasMid c.cfg.roller then ["fault-inside-compress"] else []) ++
+  (if (c.crash.map (·.2)) = some midPt && hasMid c.cfg.roller then ["crash-inside-compress"] else []) ++
+  (if c.cfg.roller.count > 4 then ["window-above-4"] else []) ++
+  (if c.ops.any (fun o => match o with | .append b _ => b.length > 1000 | _ => false) then ["long-record"] else []) ++
   (if c.cfg.mode = .truncate && model.any (fun s => s.startsWith "err|") then ["truncate-after-failed-roll"] else []) ++
   (if nAttempts = 0 then ["trivial"] else [])
 
@@ -288,7 +342,10 @@ def handleBg (c : Case) (implObs : String) : Answer :=
 
 def decCaseBg (fields : List String) : Option Case :=
   match fields with
-  | [a, b, c, d, e, f, g, h, i, j, "@bg"] => (decCase [a, b, c, d, e, f, g, h, i, j]).map (fun cs => { cs with bg := true })
+  | [a, b, c, d, e, f, g, h, i, j, "@bg"] =>
+    match decCase [a, b, c, d, e, f, g, h, i, j] with
+    | some cs => if cs.ops.contains .protect || cs.ops.contains .unprotect || cs.ops.contains .crossMount then none else some { cs with bg := true }
+    | none => none
   | _ => decCase fields
 
 def handle : Handler := fun cas obs =>
@@ -307,8 +364,10 @@ def handle : Handler := fun cas obs =>
       | some pairs =>
         let ctx : SpecCtx := {
           cfg := c.cfg,
-          injected := fun n => c.faults.any (fun f => f.1 = n),
-          obstaclePath := obstaclePath c.cfg.roller }
+          injected := fun n => c.faults.any (fun f => f.1 = n &&
+            (f.2 < nSteps c.cfg.roller || (f.2 = midPt && hasMid c.cfg.roller))),
+          obstaclePath := obstaclePath c.cfg.roller,
+          crashMid := fun n => hasMid c.cfg.roller && c.crash = some (n, midPt) }
         -- the appender is built on the initial tree: the first element is that start-up
         let spec := match checkHistory ctx { prev := c.init, attempts := 0, afterFailedRoll := false } pairs with
           | none => "ok"
